@@ -100,6 +100,7 @@ inductive Event where
   | dropped (track : Nat) (pid : Nat)                     -- discarded silently (negative PTS / before the leading track)
   | decodeError                                           -- `OnDecodeError`
   | skippedPartTrack (id : Int)                           -- part-track whose id has no processor
+  | skippedSegment                                        -- segment / part without any sample (repair of F15)
   deriving DecidableEq, Repr
 
 /-- Outcome of a client run (the type named in DESIGN §6 C13; `wedge` added for blocked-forever schedules). -/
@@ -125,6 +126,9 @@ structure Flags where
   processChecksNilDecoder : Bool
   -- clientStreamProcessorFMP4.processSegment / initializeTrackProcessors
   noLeadingDataFMP4 : Bool
+  skipsEmptySegments : Bool        -- repair of F15 …
+  skipsEmptyLeadingToo : Bool      -- … also on the leading stream (false: renditions only)
+  leadingEndNeedsOrigin : Bool     -- a leading fMP4 stream that ends without track processors returns an error
   skipsUnknownPartTracks : Bool
   chanPerSegment : Bool
   checksConvKindFMP4 : Bool
@@ -165,6 +169,9 @@ def genFlags : Flags where
   initializeDefaultErrors := fmp4InitializeDefaultErrors
   processChecksNilDecoder := fmp4ProcessChecksNilDecoder
   noLeadingDataFMP4 := fmp4GuardNoLeadingData
+  skipsEmptySegments := fmp4SkipsEmptySegments
+  skipsEmptyLeadingToo := fmp4SkipsEmptyLeadingToo
+  leadingEndNeedsOrigin := fmp4LeadingEndNeedsOrigin
   skipsUnknownPartTracks := fmp4SkipsUnknownPartTracks
   chanPerSegment := fmp4CompletionChanPerSegment
   checksConvKindFMP4 := fmp4ChecksConvKind
@@ -195,6 +202,8 @@ structure Flags.Guarded (F : Flags) : Prop where
   zeroTimeScale : F.zeroTimeScale = true
   filtersUnsupported : F.filtersUnsupported = true
   noLeadingDataFMP4 : F.noLeadingDataFMP4 = true
+  leadingEndNeedsOrigin : F.leadingEndNeedsOrigin = true
+  noLeadingDataTS : F.noLeadingDataTS = true
   skipsUnknownPartTracks : F.skipsUnknownPartTracks = true
   chanPerSegment : F.chanPerSegment = true
   checksConvKindFMP4 : F.checksConvKindFMP4 = true
@@ -357,6 +366,9 @@ def fmp4Start (F : Flags) (isLeading : Bool) (rendition : Bool) (firstIdx : Nat)
 def findFirstPT (parts : Parts) (id : Int) : Option PartTrack :=
   parts.flatten.find? (fun pt => pt.id == id)
 
+/-- `partsAreEmpty`: no part-track of the segment has a sample -/
+def partsEmpty (parts : Parts) : Bool := parts.flatten.all fun pt => pt.samples.isEmpty
+
 /-- `findTimeScaleOfLeadingTrack` -/
 def findTimeScale (init : List InitTrack) (id : Int) : Int :=
   match init.find? (fun t => t.id == id) with
@@ -457,7 +469,11 @@ def fmp4ProcessSegment (F : Flags) (elapsed : Int) (s : FStream) (c : ClientSt) 
   | none => .error .decode
   | some parts =>
     match findFirstPT parts s.leadingTrackID with
-    | none => if F.noLeadingDataFMP4 then .error .noLeadingData else .panic .nilDeref
+    | none =>
+      -- `if [!p.isLeading &&] partsAreEmpty(parts) { return nil }`: nothing is touched, not even the lazily created processors
+      if (F.skipsEmptySegments && (F.skipsEmptyLeadingToo || !s.isLeading) && partsEmpty parts) = true then
+        .ok (s, c, [.skippedSegment])
+      else if F.noLeadingDataFMP4 then .error .noLeadingData else .panic .nilDeref
     | some lpt => do
       let (c1, procs) ← (match s.procs with
         | some procs => (pure (c, procs) : Res (ClientSt × List (Int × Proc)))
@@ -909,18 +925,30 @@ def startAll (F : Flags) : Nat → Nat → List StreamIn → Res (List (StreamIn
     let more ← startAll F (sIdx + 1) (firstIdx + sp.tracks.length) rest
     pure ((inp, sp, tr) :: more)
 
-/-- phase 2: segments; the leading stream first, then the renditions, each over its own pushes; then the downloader's end -/
-def processAll (F : Flags) (elapsed : Int) : ClientSt → List (StreamIn × Started × DLTrace) → Res (List Event)
-  | _, [] => .ok []
-  | c, (inp, sp, tr) :: rest => do
-    let (_, c, evs) ← processPushes F elapsed inp.files sp c tr.pushes
-    match tr.fin with
-    | .ended => do
-      let more ← processAll F elapsed c rest
-      pure (evs ++ more)
-    | .starved => .error .terminated
-    | .error e => .error e
-    | .panic k => .panic k
+/-- the nil sentinel reaches the stream processor (`seg == nil`): `setEnded()`, unless a leading fMP4 stream never created its
+    track processors (every segment was empty and skipped) and the source guards that case -/
+def streamEnd (F : Flags) : Started → Res Unit
+  | .fmp4 s => if (F.leadingEndNeedsOrigin && s.isLeading && s.procs.isNone) = true then .error .noLeadingData else .ok ()
+  | .ts _ _ => .ok ()
+
+/-- phase 2: segments; the leading stream first, then the renditions, each over its own pushes; then the downloader's end.
+    A later stream is only looked at when every earlier one has ended without an error; if then no leading time converter
+    exists (the leading stream skipped every segment and ended normally) a stream that has anything to process blocks in
+    `waitLeadingTimeConv` with nobody left to cancel it: `wedge`. -/
+def processAll (F : Flags) (elapsed : Int) : Bool → ClientSt → List (StreamIn × Started × DLTrace) → Res (List Event)
+  | _, _, [] => .ok []
+  | first, c, (inp, sp, tr) :: rest =>
+    if (!first && c.conv.isNone && !tr.pushes.isEmpty) = true then .wedge
+    else do
+      let (sp, c, evs) ← processPushes F elapsed inp.files sp c tr.pushes
+      match tr.fin with
+      | .ended => do
+        streamEnd F sp
+        let more ← processAll F elapsed false c rest
+        pure (evs ++ more)
+      | .starved => .error .terminated
+      | .error e => .error e
+      | .panic k => .panic k
 
 def hasSkip (evs : List Event) : Bool :=
   evs.any fun e => match e with | .delivered .. => false | _ => true
@@ -947,7 +975,7 @@ def runStreams (F : Flags) (elapsed : Int) (ss : List StreamIn) : Outcome :=
     let tracks := (started.map fun x => x.2.1.tracks).flatten
     if (F.noTracks && tracks.isEmpty) = true then .error .noSupportedTracks none
     else
-      match processAll F elapsed {} started with
+      match processAll F elapsed true {} started with
       | .error e => .error e (some (trackView tracks))
       | .panic k => .panic k
       | .wedge => .wedge
